@@ -1,5 +1,6 @@
 import FrappyProofs.Lemmas.Control
 import FrappyProofs.Lemmas.ExtParams
+import FrappyProofs.Lemmas.StructErrors
 import FrappyModel.Generated.C18
 /-
 C18 — property theorems (nothing but property theorems and their non-vacuity examples).
@@ -546,6 +547,57 @@ example : (run { cfgB with omitUnch := true } (init cfgB) [
 
 /-- the monitor rejects what the pinned code did (member assigned, struct stale) -/
 example : membersAgreeB ["p", "i"] [("p", 7), ("i", 1)] [("p", 9), ("i", 1)] = false := by decide
+
+/-- what the monitor `MembersRecovered` is given for one operation of the model -/
+def sinfoOf (s : St) : SInfo :=
+  { ok := s.ok, announced := s.evs.any (fun e => match e with | .struct _ => true | _ => false), flagged := s.mP }
+
+/-- **struct_update_recovers_members** — error states: for every layout, from ANY state (whatever members are in error
+state, whatever the struct and the members hold), every operation (`read`/`change` of the struct or of a member, driver-side
+assignment of either) with any oracle outcomes, with and without omission of unchanged updates: when the operation returned
+and a value of the struct parameter was announced during it, no member is in error state (or never announced) afterwards —
+a member that failed before is repaired together with the struct, whether or not its value differs from the one propagated
+last.  (Sequential operations; for overlapping operations this clause is checked by the monitor only.) -/
+theorem struct_update_recovers_members (cfg : Cfg) (s : St) (op : Op) :
+    MembersRecovered cfg.members (sinfoOf (step1 cfg s op)) := by
+  intro hok hann m hm
+  have hq : Q cfg { s with evs := [], exc := none } := by
+    intro he; obtain ⟨d, hd⟩ := he; cases hd
+  have := q_step cfg _ op hq hok
+  refine this ?_ m hm
+  simp only [sinfoOf, List.any_eq_true] at hann
+  obtain ⟨e, he, hs⟩ := hann
+  cases e with
+  | struct d => exact ⟨d, he⟩
+  | mem m x => simp at hs
+
+/-- … at every point of every history -/
+theorem struct_update_recovers_members_run (cfg : Cfg) (s0 : St) (ops : List Op) :
+    ∀ s ∈ run cfg s0 ops, MembersRecovered cfg.members (sinfoOf s) := by
+  intro s hs
+  obtain ⟨pre, op, post, _, rfl⟩ := mem_scan _ _ _ _ hs
+  exact struct_update_recovers_members cfg _ op
+
+/-- non-vacuity (combined layout, the situation of a client reading a member during a communication failure): the read of
+`i` fails — the struct and `i` are in error state; the next read of the struct delivers the values it had before: the struct is
+announced and `i` is announced again although its value is the old one; with omission of unchanged updates the members that
+were not in error state are left alone -/
+example : (run { cfgA with omitUnch := true } (init cfgA) [
+      .readStruct (.ok [("p", 1), ("i", 2), ("d", 3)]) (fun _ => .ok 0),
+      .readMember "i" (.fail .secop) (.ok 0),
+      .readStruct (.ok [("p", 1), ("i", 2), ("d", 3)]) (fun _ => .ok 0)]).map (fun s => (s.ok, s.sP, s.mP, s.evs)) =
+    [(true, false, [], [.mem "p" 1, .mem "i" 2, .mem "d" 3, .struct [("p", 1), ("i", 2), ("d", 3)]]),
+     (false, true, ["i"], []),
+     (true, false, [], [.mem "i" 2, .struct [("p", 1), ("i", 2), ("d", 3)]])] := by decide
+
+/-- the monitor rejects a record in which the struct was announced by an operation that returned while a member stays in
+error state, and accepts it when the operation failed or the struct was not announced -/
+example : structRecOkB ["p", "i"] ([("p", 1), ("i", 2)], [("p", 1), ("i", 2)],
+    { ok := true, announced := true, flagged := ["i"] }) = false := by decide
+example : structRecOkB ["p", "i"] ([("p", 1), ("i", 2)], [("p", 1), ("i", 2)],
+    { ok := true, announced := false, flagged := ["i"] }) = true := by decide
+example : structRecOkB ["p", "i"] ([("p", 1), ("i", 2)], [("p", 1), ("i", 2)],
+    { ok := false, announced := true, flagged := ["i"] }) = true := by decide
 
 end struct
 
